@@ -419,7 +419,7 @@ func runC14(c *h.Ctx) {
 	// the same subscript node evaluated against several arrays in one query: $[*][...]
 	// (expected: the concatenation of the per-array results; strict fails if any array fails)
 	rr := c.Rand("c14-multi")
-	nm := c.PerShard(c.N(40000, 800000))
+	nm := c.PerShard(c.N(400000, 4000000))
 	for i := 0; i < nm; i++ {
 		k := 2 + rr.IntN(2)
 		var inner [][]string
@@ -505,7 +505,7 @@ func runC14(c *h.Ctx) {
 	}
 	// random larger cases
 	r := c.Rand("c14")
-	nr := c.PerShard(c.N(100000, 2500000))
+	nr := c.PerShard(c.N(1000000, 10000000))
 	elemsAll := []string{"null", "0", "1", `"s"`, "[]", "[1,2]", "{}", `{"a":1}`, "true", "1.5", "-3"}
 	big := []bound{{text: "2147483647", val: 2147483647}, {text: "-2147483648", val: -2147483648}, {text: "100", val: 100}, {text: "-100", val: -100}, {text: "11.7", val: 11.7}, {text: "-1.9", val: -1.9}, {text: "2e1", val: 20}, {text: "1e0", val: 1}}
 	allB := append(append([]bound{}, c14Bounds...), big...)
